@@ -74,14 +74,35 @@ impl<'a, 'tcx> Cx<'a, 'tcx> {
     fn ty_id(&mut self, ty: Ty<'tcx>) -> usize {
         let tcx = self.tcx;
         let ty = tcx.erase_and_anonymize_regions(ty);
-        let key = with_no_trimmed_paths!(format!("{}", ty));
+        let shown = with_no_trimmed_paths!(format!("{}", ty));
+        // closures written by one macro expansion share their span, hence their printed name:
+        // the interning key also carries the DefIds of every closure-like type inside `ty`
+        let mut key = shown.clone();
+        if shown.contains("{closure") || shown.contains("{coroutine") || shown.contains("{async") {
+            for arg in ty.walk() {
+                if let Some(t) = arg.as_type() {
+                    match t.kind() {
+                        ty::Closure(did, _) | ty::Coroutine(did, _) | ty::CoroutineClosure(did, _) => {
+                            key.push('|');
+                            key.push_str(&did_key(tcx, *did));
+                        }
+                        _ => {}
+                    }
+                }
+            }
+        }
         if let Some(&i) = self.c.type_ix.get(&key) {
             return i;
         }
         let id = self.c.types.len();
         self.c.types.push(J::Null);
         self.c.type_ix.insert(key.clone(), id);
-        let e = self.ty_entry(ty, key);
+        let mut e = self.ty_entry(ty, shown.clone());
+        if key != shown {
+            if let J::Obj(ref mut o) = e {
+                o.push(("uk", J::Str(key)));
+            }
+        }
         self.c.types[id] = e;
         id
     }
